@@ -112,8 +112,23 @@ pub fn execute_case(case: &Value, scratch: &str) -> Outcome {
     // returns). The verdict never depends on it; a reaped run is a harness error (or the engine's own
     // liveness verdict where the property promises termination).
     let t0 = std::time::Instant::now();
-    let limit = std::time::Duration::from_secs(WATCHDOG_SECS.load(std::sync::atomic::Ordering::Relaxed));
+    let is_c16 = case["engine"] == "C16";
+    // C16 promises that every save completes: there a run that never ends is a verdict (30 s is four
+    // orders of magnitude above a normal C16 execution); elsewhere it is a harness error
+    let limit = std::time::Duration::from_secs(if is_c16 { 30 } else { WATCHDOG_SECS.load(std::sync::atomic::Ordering::Relaxed) });
     while !h.is_finished() {
+        if t0.elapsed() > limit && is_c16 {
+            let mut o = Outcome::default();
+            o.violate(Verdict::new(
+                "C16",
+                "C16:no-progress",
+                &[("kind", "hang")],
+                format!("concurrent saves did not complete within {:?} of wall-clock time although the controlled scheduler kept running a thread (blocked outside the scheduler's view: a lock the cfg seam does not substitute, or an endless loop)", limit),
+            ));
+            o.signature = "hang".into();
+            HANGS.fetch_add(1, std::sync::atomic::Ordering::Relaxed);
+            return o;
+        }
         if t0.elapsed() > limit {
             // the thread is leaked; process exit reaps it
             return Outcome { harness_error: Some(format!("hang: execution did not finish within {:?}: {}", limit, case.to_string().chars().take(600).collect::<String>())), ..Default::default() };
@@ -126,6 +141,8 @@ pub fn execute_case(case: &Value, scratch: &str) -> Outcome {
     }
 }
 
+/// executions reaped as hangs so far (two are enough: the batch stops taking new runs)
+pub static HANGS: std::sync::atomic::AtomicU64 = std::sync::atomic::AtomicU64::new(0);
 pub static WATCHDOG_SECS: std::sync::atomic::AtomicU64 = std::sync::atomic::AtomicU64::new(120);
 
 /// Fixed warm-up: pins every process-global the library initialises lazily (lazy_static regexes, the
